@@ -308,6 +308,14 @@ pub fn scoring_for(sp: &ScoreSpec, with_match_scores: bool) -> bio::alignment::p
 }
 
 fn new_aligner(c: &Case) -> Aligner<TableFn> {
+    // schemes the plain constructors can express (no clip penalties, no summary) go through them every other time
+    let plain = c.spec.clips.iter().all(|p| p.is_none()) && !c.with_match_scores;
+    if plain && (c.call.x.len() + c.call.y.len()) % 3 == 1 {
+        return Aligner::new(c.spec.gap_open, c.spec.gap_extend, c.spec.table_fn(), c.k, c.w);
+    }
+    if plain && (c.call.x.len() + c.call.y.len()) % 3 == 2 {
+        return Aligner::with_capacity(c.call.x.len() / 2, c.call.y.len() / 2, c.spec.gap_open, c.spec.gap_extend, c.spec.table_fn(), c.k, c.w);
+    }
     Aligner::with_scoring(scoring_for(&c.spec, c.with_match_scores), c.k, c.w)
 }
 
